@@ -4,6 +4,7 @@ import (
 	"encoding/binary"
 	"fmt"
 	"sync"
+	"time"
 
 	sdk "github.com/cosmos/cosmos-sdk/types"
 
@@ -114,7 +115,12 @@ type PL struct {
 	Sync       bool     // macro step: commit(X) immediately followed by the honest client update on the other chain (replaces commit/update ops)
 	CommitOn   []int    // chains that may commit (nil = both)
 	UpdateOn   []int    // chains whose client may be updated (nil = both)
-	TimeoutIn  []int    // candidate timeouts, in destination blocks after the destination's current height (0 = none/far)
+	// TimeoutIn lists candidate timeout codes: 0 = far; k in 1..9 = the destination's height k blocks ahead (v1) or the
+	// destination's clock k blocks ahead in whole seconds (v2); 10 = exactly the destination's current block height / time;
+	// -k = v1 timestamp timeout at the destination's clock k blocks ahead (nanoseconds); 20+k (v2 only) = one second after code k
+	TimeoutIn []int
+	StepB     time.Duration // block interval of chain B (0 = ksim.BlockStep); a non-integral number of seconds exercises ns->s conversions
+	LatePH    bool          // timeout relays may also claim a proof height one above the client's latest height
 
 	link *ksim.Link
 	chU  *ksim.ChanPair
@@ -234,7 +240,11 @@ func (s *PL) Ops(w *ksim.World) []ksim.Op {
 			}
 		}
 		if s.Timeouts {
-			for _, ph := range s.proofHeights(w, 0) {
+			phs := s.proofHeights(w, 0)
+			if s.LatePH {
+				phs = append(phs, phs[0]+1)
+			}
+			for _, ph := range phs {
 				ops = append(ops, ksim.Op{K: "timeout", A: []int{i, ph}})
 				if s.Close && !p.isV2() {
 					ops = append(ops, ksim.Op{K: "toclose", A: []int{i, ph}})
@@ -259,6 +269,20 @@ func (s *PL) Ops(w *ksim.World) []ksim.Op {
 		}
 	}
 	return ops
+}
+
+func (s *PL) stepB() time.Duration {
+	if s.StepB == 0 {
+		return ksim.BlockStep
+	}
+	return s.StepB
+}
+
+func (s *PL) step(chain int) time.Duration {
+	if chain == 1 {
+		return s.stepB()
+	}
+	return ksim.BlockStep
 }
 
 func has(set []int, v int) bool {
@@ -325,11 +349,16 @@ func (s *PL) apply(w *ksim.World, op ksim.Op) ksim.Result {
 		if route >= rV2A {
 			src, dst := s.v2IDs(route)
 			var tsec uint64
-			if to == 0 {
+			switch {
+			case to == 0:
 				tsec = uint64(w.CS[0].TimeNs()/1e9) + 3600
-			} else {
+			case to == 10:
+				tsec = uint64(w.CS[1].TimeNs() / 1e9)
+			case to > 20:
+				tsec = uint64((w.CS[1].TimeNs()+int64(to-20)*int64(s.stepB()))/1e9) + 1
+			default:
 				// expires when B's clock reaches `to` blocks after B's current block
-				tsec = uint64((w.CS[1].TimeNs() + int64(to)*int64(ksim.BlockStep)) / 1e9)
+				tsec = uint64((w.CS[1].TimeNs() + int64(to)*int64(s.stepB())) / 1e9)
 			}
 			pl := mockv2.NewMockPayload(mockv2.PortIDA, mockv2.PortIDB)
 			pl.Value = data
@@ -341,21 +370,28 @@ func (s *PL) apply(w *ksim.World, op ksim.Op) ksim.Result {
 		}
 		cp := s.chanFor(route)
 		th := clienttypes.NewHeight(1, 1_000_000)
-		if to != 0 {
+		var tts uint64
+		switch {
+		case to == 10:
+			th = w.Height(1, w.CS[1].H())
+		case to > 0:
 			th = w.Height(1, w.CS[1].H()+int64(to))
+		case to < 0:
+			th = clienttypes.ZeroHeight()
+			tts = uint64(w.CS[1].TimeNs() + int64(-to)*int64(s.stepB()))
 		}
-		seq, r := w.SendV1(0, cp.PortA, cp.ChanA, th, 0, data)
+		seq, r := w.SendV1(0, cp.PortA, cp.ChanA, th, tts, data)
 		if r.Class == ksim.OK {
-			e.Pkts = append(e.Pkts, plPkt{Route: route, Seq: seq, Data: string(data), V1: channeltypes.NewPacket(data, seq, cp.PortA, cp.ChanA, cp.PortB, cp.ChanB, th, 0)})
+			e.Pkts = append(e.Pkts, plPkt{Route: route, Seq: seq, Data: string(data), V1: channeltypes.NewPacket(data, seq, cp.PortA, cp.ChanA, cp.PortB, cp.ChanB, th, tts)})
 		}
 		return r
 	case "commit":
-		w.Commit(op.A[0], ksim.BlockStep)
+		w.Commit(op.A[0], s.step(op.A[0]))
 		e.Commits[op.A[0]]++
 		return ksim.Result{Class: ksim.OK}
 	case "sync":
 		ch := op.A[0]
-		w.Commit(ch, ksim.BlockStep)
+		w.Commit(ch, s.step(ch))
 		e.Commits[ch]++
 		dst := 1 - ch
 		r := w.UpdateLatest(dst, s.clientOn(dst), ch)
